@@ -106,6 +106,10 @@ def _battery(pid):
 
 
 def run(pid, tier, repo="/repo", no_cache=False, replay=None):
+    # evidence/ describes /repo: a run on another tree (a scratch copy with a seeded change or a refactoring applied)
+    # writes its evidence elsewhere unless told where
+    if os.path.realpath(repo) != "/repo" and not os.environ.get("FPV_EVIDENCE_DIR"):
+        os.environ["FPV_EVIDENCE_DIR"] = os.path.join(VERIF, ".work", "evidence_other_trees")
     try:
         mod = importlib.import_module("fpv.rules.%s" % pid.lower())
     except ImportError as e:
